@@ -405,7 +405,8 @@ def run_task(desc):
         for status in (b"101", b"200", b"301", b"302", b"400", b"404", b"500", b"0", b"99", b"1000", b"-1", b"1e2", b"", b" "):
             for hdrs in ([], [b"Location: ws://h/"], [b"Location:"], [b"Content-Length: 5"], [b"Content-Length: 99999999999"], [b"Content-Length: -1"],
                          [b"Content-Length: abc"], [b"Content-Length: 131072"], [b"Content-Length: 4294967296"], [b"Content-Length: 4611686018427387904"],
-                         [b"Content-Length: 0"], [b"NoColonHere"], [b": empty-name"], [b"X: \xff\xfe"], [b"Upgrade: websocket", b"Connection: Upgrade"]):
+                         [b"Content-Length: 0"], [b"Content-Length: 1\xc2\xb2"], [b"Content-Length: \xe2\x91\xa0"], [b"Content-Length: \xd9\xa3"], [b"Content-Length: +5"],
+                         [b"Content-Length: 5 "], [b"Content-Length: 0x10"], [b"Content-Length: 1_0"], [b"Content-Length: " + b"9" * 5000], [b"Content-Length: 5.0"], [b"NoColonHere"], [b": empty-name"], [b"X: \xff\xfe"], [b"Upgrade: websocket", b"Connection: Upgrade"]):
                 for body in (b"", b"hello"):
                     specials.append(b"HTTP/1.1 " + status + b" Reason\r\n" + b"".join(h + b"\r\n" for h in hdrs) + b"\r\n" + body)
         specials += [b"\r\n\r\n", b"\n\n", b"HTTP/1.1\r\n\r\n", b"HTTP/1.1 \r\n\r\n", b" \r\n\r\n", b"\xff\xff\r\n\r\n", b"HTTP/1.1 101\r\n\r\n",
